@@ -23,6 +23,10 @@
 // Everything observable is recorded (projection of every request handed in, projection and
 // independently measured size of every part handed to the export function, start and end of every
 // export call, return of every Send) for the TLA+ monitor specs/Batcher/BatcherTrace.tla.
+//
+// A request may come with a fill (specs/Batcher/PayloadFill.tla): elements left at their protobuf
+// defaults, whose encoding is empty or minimal.  Items left at their defaults carry no id; the
+// recorder pairs those that leave with indistinguishable ones that entered (anonPool, payload.go).
 package main
 
 import (
@@ -57,6 +61,7 @@ import (
 type reqSpec struct {
 	Shape shape `json:"shape"`
 	Big   []int `json:"big"`    // flat positions (1-based) of items with a large encoding
+	Fill  *fill `json:"fill"`   // elements left at their defaults (PayloadFill!Mask); absent = none
 	GapUs int   `json:"gap_us"` // batch kind: delay before the Send
 }
 
@@ -79,7 +84,7 @@ type script struct {
 type signal struct {
 	set     exporterhelper.QueueBatchSettings
 	sig     pipeline.Signal
-	build   func(base int, tag string, sh shape, big map[int]bool) ([]byte, []item)
+	build   func(base int, tag string, sh shape, big map[int]bool, f *fill) ([]byte, []item)
 	project func(b []byte) ([]item, []int, error)
 }
 
@@ -90,10 +95,10 @@ func signals() map[string]*signal {
 	pm, pu := &pprofile.ProtoMarshaler{}, &pprofile.ProtoUnmarshaler{}
 	return map[string]*signal{
 		"logs": {set: exporterhelper.NewLogsQueueBatchSettings(), sig: pipeline.SignalLogs,
-			build: func(base int, tag string, sh shape, big map[int]bool) ([]byte, []item) {
-				ld := buildLogs(base, tag, sh, big)
+			build: func(base int, tag string, sh shape, big map[int]bool, f *fill) ([]byte, []item) {
+				ld := buildLogs(base, tag, sh, big, f)
 				b, _ := lm.MarshalLogs(ld)
-				return b, projectLogs(ld, nil)
+				return b, number(projectLogs(ld, nil), base)
 			},
 			project: func(b []byte) ([]item, []int, error) {
 				ld, err := lu.UnmarshalLogs(b)
@@ -105,10 +110,10 @@ func signals() map[string]*signal {
 				return items, reqNumbers(tags), nil
 			}},
 		"traces": {set: exporterhelper.NewTracesQueueBatchSettings(), sig: pipeline.SignalTraces,
-			build: func(base int, tag string, sh shape, big map[int]bool) ([]byte, []item) {
-				td := buildTraces(base, tag, sh, big)
+			build: func(base int, tag string, sh shape, big map[int]bool, f *fill) ([]byte, []item) {
+				td := buildTraces(base, tag, sh, big, f)
 				b, _ := tm.MarshalTraces(td)
-				return b, projectTraces(td, nil)
+				return b, number(projectTraces(td, nil), base)
 			},
 			project: func(b []byte) ([]item, []int, error) {
 				td, err := tu.UnmarshalTraces(b)
@@ -120,10 +125,10 @@ func signals() map[string]*signal {
 				return items, reqNumbers(tags), nil
 			}},
 		"metrics": {set: exporterhelper.NewMetricsQueueBatchSettings(), sig: pipeline.SignalMetrics,
-			build: func(base int, tag string, sh shape, big map[int]bool) ([]byte, []item) {
-				md := buildMetrics(base, tag, sh, big)
+			build: func(base int, tag string, sh shape, big map[int]bool, f *fill) ([]byte, []item) {
+				md := buildMetrics(base, tag, sh, big, f)
 				b, _ := mm.MarshalMetrics(md)
-				return b, projectMetrics(md, nil)
+				return b, number(projectMetrics(md, nil), base)
 			},
 			project: func(b []byte) ([]item, []int, error) {
 				md, err := mu.UnmarshalMetrics(b)
@@ -141,10 +146,10 @@ func signals() map[string]*signal {
 				return items, reqs, nil
 			}},
 		"profiles": {set: xexporterhelper.NewProfilesQueueBatchSettings(), sig: xpipeline.SignalProfiles,
-			build: func(base int, tag string, sh shape, big map[int]bool) ([]byte, []item) {
-				pd := buildProfiles(base, tag, sh, big)
+			build: func(base int, tag string, sh shape, big map[int]bool, f *fill) ([]byte, []item) {
+				pd := buildProfiles(base, tag, sh, big, f)
 				b, _ := pm.MarshalProfiles(pd)
-				return b, projectProfiles(pd, nil)
+				return b, number(projectProfiles(pd, nil), base)
 			},
 			project: func(b []byte) ([]item, []int, error) {
 				pd, err := pu.UnmarshalProfiles(b)
@@ -199,7 +204,8 @@ type recorder struct {
 	events []map[string]any
 	closed bool
 	calls  int
-	what   string // what the script is doing right now (for the watchdog message)
+	what   string   // what the script is doing right now (for the watchdog message)
+	pool   anonPool // ids of anonymous items (payload.go), used inside log()
 }
 
 func (r *recorder) log(ev map[string]any, f func()) {
@@ -265,7 +271,7 @@ func makeReq(sg *signal, s *script, k int) (exporterhelper.Request, []item, erro
 	for _, p := range s.Reqs[k].Big {
 		big[p] = true
 	}
-	b, items := sg.build((100+k+1)*1000, fmt.Sprintf("s%d.r%d", s.Sid, k+1), s.Reqs[k].Shape, big)
+	b, items := sg.build((100+k+1)*1000, fmt.Sprintf("s%d.r%d", s.Sid, k+1), s.Reqs[k].Shape, big, s.Reqs[k].Fill)
 	req, err := sg.set.Encoding.Unmarshal(b)
 	return req, nonNil(items), err
 }
@@ -290,7 +296,7 @@ func runSplit(s *script, sg *signal, rec *recorder, res *result) {
 			res.Error = err.Error()
 			return
 		}
-		rec.log(map[string]any{"ev": "consume", "req": k + 1, "items": items}, nil)
+		rec.log(map[string]any{"ev": "consume", "req": k + 1, "items": items}, func() { rec.pool.enter(items) })
 		reqs = append(reqs, req)
 	}
 	var got [][]int
@@ -302,7 +308,8 @@ func runSplit(s *script, sg *signal, rec *recorder, res *result) {
 		}
 		items := m.items
 		rec.calls++
-		rec.log(map[string]any{"ev": "emit", "k": rec.calls, "items": items, "reqs": m.reqs, "shells": m.shells, "size": m.size}, nil)
+		rec.log(map[string]any{"ev": "emit", "k": rec.calls, "items": items, "reqs": m.reqs, "shells": m.shells, "size": m.size},
+			func() { rec.pool.leave(items) })
 		rec.log(map[string]any{"ev": "emit_end", "k": rec.calls, "ok": true}, nil)
 		ids := []int{}
 		for _, it := range items {
@@ -373,6 +380,7 @@ func runBatch(s *script, sg *signal, rec *recorder, res *result) {
 			if fail[k] {
 				ferr = errExport
 			}
+			rec.pool.leave(m.items)
 		})
 		if s.DelayUs > 0 {
 			time.Sleep(time.Duration(s.DelayUs) * time.Microsecond)
@@ -414,7 +422,7 @@ func runBatch(s *script, sg *signal, rec *recorder, res *result) {
 			if g := s.Reqs[k].GapUs; g > 0 {
 				time.Sleep(time.Duration(g) * time.Microsecond)
 			}
-			rec.log(map[string]any{"ev": "consume", "req": k + 1, "items": items}, nil)
+			rec.log(map[string]any{"ev": "consume", "req": k + 1, "items": items}, func() { rec.pool.enter(items) })
 			err := qb.Send(context.Background(), req)
 			cls := "ok"
 			if err != nil {
